@@ -75,6 +75,30 @@ def main(tier):
                 if not (chainmod.LDN_1601 <= (l * 86400 + s + n * mult) // 86400 < caldrv.TAIL_FIRST):
                     continue
                 ev.append({"e": "Add", "src": "dadd %+d%s" % (n, unit), "t": [l, s], "dq": dq, "dr": dr, "res": parse_dt(ch, got), "out": got})
+        # several durations in one run (each one is added to the result of the one before; a carry left behind by the first must not
+        # be counted again by the second), whole days written in h/m/s, zero, and operands that were shifted from a UTC offset first
+        combos = [[(2, "h"), (24, "h")], [(-2, "h"), (-24, "h")], [(2, "h"), (0, "s")], [(3600, "s"), (86400, "s")], [(90, "m"), (1440, "m")],
+                  [(24, "h"), (2, "h")], [(-1, "s"), (-86400, "s")], [(1, "s"), (172800, "s")], [(23, "h"), (1, "h"), (24, "h")], [(-1, "s"), (0, "s"), (48, "h")],
+                  [(86399, "s"), (1, "s"), (2880, "m")], [(-86400, "s"), (86400, "s")], [(12, "h"), (12, "h"), (-24, "h")]]
+        MULT = {"s": 1, "m": 60, "h": 3600}
+        for combo in combos:
+            for sfx, shift in (("", 0), ("+01:00", -3600), ("-09:30", 34200), ("+14:00", -50400)):
+                if sfx and quick and len(combo) > 2:
+                    continue
+                inp2 = "".join("%sT%s%s\n" % (ch.fmtF(l), hms(s_), sfx) for l, s_ in pts)
+                args = ["%+d%s" % (n, u) for n, u in combo]
+                rc, lines, err = cc.tool_lines(dadd, args, inp2)
+                nrun += 1
+                if len(lines) != len(pts):
+                    rep.disagree("cli dadd %s: %d lines for %d inputs" % (" ".join(args), len(lines), len(pts)), {"stderr": err[:200], "suffix": sfx})
+                    continue
+                tot = sum(n * MULT[u] for n, u in combo) + shift
+                dq, dr = split(tot)
+                for (l, s_), got in zip(pts, lines):
+                    if not (chainmod.LDN_1601 + 2 <= (l * 86400 + s_ + tot) // 86400 < caldrv.TAIL_FIRST - 2):
+                        continue
+                    ev.append({"e": "Add", "src": "dadd %s%s" % (" ".join(args), " (input %s)" % sfx if sfx else ""), "t": [l, s_], "dq": dq, "dr": dr,
+                               "res": parse_dt(ch, got), "out": got})
         # differences in seconds, near and far (more than 2^31 s apart too)
         for i in range(300 if quick else 30000):
             (la, sa) = rng.choice(pts)
@@ -140,7 +164,8 @@ def main(tier):
                 ev.append({"e": "Mil", "src": "dconv T24:00:00", "day": l, "res": parse_dt(ch, got.replace(" ", "T00:")), "out": got})
         rep.notes["tool_runs"] = nrun
         execs = [[e] for e in ev]
-        cc.validate_and_report(rep, "ClockTrace", "ClockTrace.cfg", execs, lambda bad, e: "cli %s" % " ".join(bad.get("src", "?").split()[:2]),
+        cc.validate_and_report(rep, "ClockTrace", "ClockTrace.cfg", execs, lambda bad, e: ("cli dadd several durations" + (" after an offset shift" if "(input" in bad["src"] else ""))
+                               if bad.get("src", "").startswith("dadd ") and bad["src"].count(" ") >= 2 else "cli %s" % " ".join(bad.get("src", "?").split()[:2]),
                                "tool_event")
         rep.cov["rule"] = ("A: one case = (day, second of day, notation, signed count in s|m|h up to 2^31-1 s) for additions, a pair of "
                            "date-times (adjacent, > 68 years apart, seeded) for differences, an epoch value in/out, a 24:00:00 reading; "
